@@ -48,7 +48,7 @@ CONTROLS = {
     "last()": lambda n: ("fn", "last", [], []),
 }
 
-WINDOWS = ["*", "1*", "2*", "0-3", "1-4", "2-9", "1+3-5"]
+WINDOWS = ["*", "1*", "2*", "0-3", "1-4", "2-9", "1+3-5", "4+1+3", "5+1-2"]  # (the last two: a list written out of order)
 LAYOUTS = ["plain", "interior-blank", "trailing-blank", "two-trailing-blanks", "blank-before-fire"]
 
 
